@@ -121,6 +121,8 @@ class Mod:
             raise AnalysisError(f"{rel}: does not parse: {e}")
         from .matchlower import lower_matches
         lower_matches(self.tree)      # `match` read as the if / elif ladder it abbreviates (one form for every rule)
+        from .matchlower import lower_annotations
+        lower_annotations(self.tree)  # `x: T = v` outside class bodies read as `x = v` (one form for every rule)
         if renames:
             from .normalize import apply_attribute_renames
 
